@@ -207,12 +207,12 @@ PROPS = {
         "design_ref": "DESIGN.md §7 C17", "assumptions": ["user callbacks do not re-enter the cache or the registries"],
     },
     "C20": {
-        "lean_modules": ["Cachelito.Props.C17"],
+        "lean_modules": ["Cachelito.Props.C20"],
         "streams": [macro_stream(nontrivial=["c20-suspended", "c20-dropped", "c20-resumed"], quick=300,
                                  what="L2 with manual polling: real #[cache_async] functions whose bodies have 1-3 await points (a gate future) are polled until they suspend at a chosen await; while suspended a conditional invalidation of the same cache must complete on another thread (3 s watchdog), arbitrary other calls (same and other arguments) and invalidations run, then the call is resumed or dropped; outputs and the dump of every cache instance compared with Cachelito.aStep per operation")],
         "monitors": ["C20"],
         "rule": "episodes over real async generated functions with begin / resume / drop operations at every await point (k-th of 1..3) interleaved with other operations; non-trivial = a call actually suspended in its body, resumed, or dropped",
-        "level_text": "Lean theorems: (locks) after any complete operation skeleton - in particular the lookup phase of an async call - the held set is empty, and threads that hold nothing and are never scheduled cannot block the others (C17.suspended_holds_nothing, progress_despite_suspended); (data) the model of a suspended call (Async.lean: lookup phase, pending record, finish phase on the current state) is compared with the real code per operation. The data-level theorems (drop = lookup only, no entry from a dropped call, resume = ordinary late store) are being added in Props/C20.lean; until then that part rests on the monitors and the correspondence.",
+        "level_text": "Lean theorems: (locks) after any complete operation skeleton - in particular the lookup phase of an async call - the held set is empty, and threads that hold nothing and are never scheduled cannot block the others (C17.suspended_holds_nothing, progress_despite_suspended); (data) over the model of suspended calls (Async.lean: lookup phase, pending record, finish phase on the CURRENT state): a call begun and resumed at once is exactly an ordinary call; the lookup phase adds or changes no entry; every entry of every cache comes from a COMPLETED call (a value no completed call produced is nowhere); begin; h; drop leaves exactly the state of `lookup only; h` for every history h (pending records never influence other operations); a resume is the ordinary store on the current state, preserves the invariant and the entry limit, returns the body value and (async) leaves the fresh entry stored unless rejected or oversize. The model is compared with the real code per operation.",
         "level_note": MODEL_NOTE + " That the compiler-generated future holds no hidden guard across the await is checked at run time (watchdog), not proved.",
         "technique": "Lean 4 theorem (balanced lock skeletons => nothing held at the await) + manual polling of real futures compared with the model per operation + monitors",
         "design_ref": "DESIGN.md §7 C20", "assumptions": ["the async runtime polls the future only through its public poll interface"],
